@@ -498,6 +498,16 @@ func driveWire(c *ctx) {
 		xpv.Mod(xpv, big2_256) // x + p (mod 2^256): a non-canonical or unrelated x
 		xp := append([]byte{cm[0]}, be32(xpv)[:]...)
 		spki(mkSpki(algOK, 0, xp, nil, nil, nil, lenShort), "spki_bad_point")
+		// the point's prefix octet: all 256 values over a valid 33-byte and a valid 65-byte body (two keys: both parities come up)
+		if i < 2 {
+			for pfx := 0; pfx < 256; pfx++ {
+				for _, content := range [][]byte{cm, unc} {
+					m := append([]byte{}, content...)
+					m[0] = byte(pfx)
+					spki(mkSpki(algOK, 0, m, nil, nil, nil, lenShort), "spki_prefix_sweep")
+				}
+			}
+		}
 		// every single byte of a valid SPKI mutated
 		if i == 0 {
 			v := pub.ASN1Bytes()
